@@ -4,7 +4,10 @@
  * request position beyond the frame end.  One command per line:
  *
  *  H <id> <dflags> <streamhex> <payload> s <outcap> [maxcalls]     ZSTD_decompressStream, hint = return value
- *      dflags : "-" or comma list: ml (magicless) | nock | bm=<maxBlockSize> | wl=<windowLogMax>
+ *      dflags : "-" or comma list: ml (magicless) | nock | bm=<maxBlockSize> | wl=<windowLogMax> | so (ZSTD_d_stableOutBuffer: every
+ *               call gets the one output buffer {out, 16 MiB, bytes produced so far}; <outcap> is ignored)
+ *               | ab=<k> (before the run the same context is given the first k bytes of the stream in up to 3 calls with
+ *               <outcap> bytes of room each, then ZSTD_DCtx_reset(session_only): an abandoned frame must leave nothing behind)
  *      payload: number of leading bytes of the stream that are frames (the reader stops there; the rest is "data that follows")
  *      reader : request := ZSTD_startingInputLength(format) at the start of every frame, afterwards the last return value;
  *               the requested bytes are presented (again and again, with a fresh output buffer of <outcap> bytes) until they
@@ -51,7 +54,7 @@ static void cmd_H(char** t, int nt) {
     int bufferless = t[5][0] == 'c';
     size_t outcap = (size_t)strtoull(t[6], NULL, 10);
     size_t maxcalls = nt > 7 ? (size_t)strtoull(t[7], NULL, 10) : 400000;
-    ZSTD_DCtx* d = ZSTD_createDCtx(); size_t r = 0; int magicless = 0;
+    ZSTD_DCtx* d = ZSTD_createDCtx(); size_t r = 0; int magicless = 0, stable = 0; size_t ab = 0;
     size_t ocap_total = (size_t)16 << 20, opos = 0, ipos = 0, ncalls = 0;
     unsigned char* out = (unsigned char*)malloc(ocap_total + 1);
     sbuf rec = { (char*)malloc(1 << 16), 0, 1 << 16 };
@@ -63,10 +66,25 @@ static void cmd_H(char** t, int nt) {
             else if (!strncmp(q, "wl=", 3)) r = ZSTD_DCtx_setParameter(d, ZSTD_d_windowLogMax, atoi(q + 3));
             else if (!strncmp(q, "bm=", 3)) r = ZSTD_DCtx_setParameter(d, ZSTD_d_maxBlockSize, atoi(q + 3));
             else if (!strcmp(q, "nock")) r = ZSTD_DCtx_setParameter(d, ZSTD_d_forceIgnoreChecksum, 1);
+            else if (!strcmp(q, "so")) { stable = 1; r = ZSTD_DCtx_setParameter(d, ZSTD_d_stableOutBuffer, 1); }
+            else if (!strncmp(q, "ab=", 3)) ab = (size_t)strtoull(q + 3, NULL, 10);
             if (ZSTD_isError(r)) { char e[200]; puterr_s(e, r); printf("%s ERR %s\n", id, e + 1); free(fl); goto done; }
             q = strtok_r(NULL, ",", &s2);
         }
         free(fl);
+    }
+    if (ab > 0 && !bufferless) {   /* an abandoned frame first */
+        ZSTD_inBuffer ib; ZSTD_outBuffer ob; int k;
+        ib.src = f; ib.size = ab < fn ? ab : fn; ib.pos = 0;
+        for (k = 0; k < 3; k++) {
+            size_t cap = outcap < ocap_total ? outcap : ocap_total;
+            ob.dst = out; ob.size = stable ? ocap_total : cap; ob.pos = 0;
+            r = ZSTD_decompressStream(d, &ob, &ib);
+            if (ZSTD_isError(r) || r == 0) break;
+            if (stable) break;      /* the stable buffer may not be rewound */
+        }
+        ZSTD_DCtx_reset(d, ZSTD_reset_session_only);
+        r = 0;
     }
     {   size_t const start = magicless ? 1 : 5;      /* ZSTD_startingInputLength() = ZSTD_FRAMEHEADERSIZE_PREFIX(format): public macro */
         int stop = 0;
@@ -101,16 +119,17 @@ static void cmd_H(char** t, int nt) {
                         if (cap > ocap_total - opos) cap = ocap_total - opos;
                         ib.src = f + ipos; ib.size = have; ib.pos = 0;
                         ob.dst = out + opos; ob.size = cap; ob.pos = 0;
+                        if (stable) { ob.dst = out; ob.size = ocap_total; ob.pos = opos; }
                         r = ZSTD_decompressStream(d, &ob, &ib);
                         ncalls++;
                         sb_room(&rec, 400);
                         rec.n += sprintf(rec.p + rec.n, "%lu:%lu:%lu:%lu:%lu:", (unsigned long)newreq, (unsigned long)ipos, (unsigned long)have,
-                                         (unsigned long)ib.pos, (unsigned long)ob.pos);
+                                         (unsigned long)ib.pos, (unsigned long)(stable ? ob.pos - opos : ob.pos));
                         if (ZSTD_isError(r)) rec.n += puterr_s(rec.p + rec.n, r); else rec.n += sprintf(rec.p + rec.n, "%lu", (unsigned long)r);
                         rec.n += sprintf(rec.p + rec.n, ":%d;", first);
                         first = 0; newreq = 0;
                         if (ZSTD_isError(r)) { stop = 1; break; }
-                        ipos += ib.pos; have -= ib.pos; opos += ob.pos;
+                        ipos += ib.pos; have -= ib.pos; opos = stable ? ob.pos : opos + ob.pos;
                         if (r == 0) { frame_done = 1; break; }
                         if (have == 0) break;
                         if (ncalls >= maxcalls) { stop = 1; break; }
